@@ -8,6 +8,7 @@
 //!    channel log.  `<items>` = `-` or a comma list `o<type>.<id>:<v>.<v>…` / `u<n>.<id>:<v>.<v>…`
 //!    (ordinal type / UUID type number n).  Anything after a `|` token is a hint for the Lean driver.
 //!  * `d <i>`                 deliver message `i` of the channel log to the `Manager`
+//!  * `dc <i> <n>`            deliver a copy of message `i` whose checksum field was changed by `n`
 //!  * `ack`                   the client emits an input carrying `ack_tick().unwrap_or(-1)` (ack log)
 //!  * `da <j>`                deliver ack `j` of the ack log to the sender (`set_delta_tick`)
 //!  * `ra <v>`                deliver a forged ack value to the sender
@@ -109,11 +110,13 @@ struct R {
     /// Lean driver (only the generator uses it)
     serials: BTreeMap<Vec<i32>, u64>,
     last_hint: String,
+    /// a message with an altered checksum field was delivered in this session
+    garbled: bool,
 }
 
 impl R {
     fn new() -> R {
-        R { sender: Storage::new(), client: Manager::new(), msgs: vec![], acks: vec![], sent: BTreeMap::new(), last_tick: None, mixed: false, serials: BTreeMap::new(), last_hint: String::new() }
+        R { sender: Storage::new(), client: Manager::new(), msgs: vec![], acks: vec![], sent: BTreeMap::new(), last_tick: None, mixed: false, serials: BTreeMap::new(), last_hint: String::new(), garbled: false }
     }
 
     fn ack_str(&self) -> String {
@@ -183,8 +186,16 @@ impl R {
         format!("sent {} base={} len={} parts={} crc={} first={}", tick, delta_tick, buf.len(), parts, crc, first)
     }
 
-    fn deliver(&mut self, i: usize, o: &mut Oracle) -> String {
-        let m = self.msgs[i].clone();
+    fn deliver(&mut self, i: usize, crc_delta: i32, o: &mut Oracle) -> String {
+        let mut m = self.msgs[i].clone();
+        if crc_delta != 0 {
+            // not a message of the sender: the checksum field was altered on the way
+            self.garbled = true;
+            match &mut m {
+                OMsg::Single { crc, .. } | OMsg::Snap { crc, .. } => *crc = crc.wrapping_add(crc_delta),
+                OMsg::Empty { .. } => {}
+            }
+        }
         let before = self.client.ack_tick();
         let mut ws: Vec<manager::Warning> = vec![];
         let res = match &m {
@@ -258,7 +269,7 @@ impl R {
                 _ => None,
             })
             .collect();
-        if !w.is_empty() {
+        if !w.is_empty() && !self.garbled {
             // a consistent sender never causes receiver/storage warnings
             o.fail("C13/warning-on-consistent-history", format!("msg tick {}: {:?}", tick, w));
         }
@@ -319,11 +330,12 @@ impl Runner for R {
                 }
                 _ => "bad-args".to_string(),
             },
-            ["d", i] => match i.parse::<usize>().ok() {
+            ["d", i] | ["dc", i, _] => match i.parse::<usize>().ok() {
                 Some(i) if i < self.msgs.len() => {
+                    let crc_delta: i32 = if t.len() == 3 { t[2].parse().unwrap_or(1) } else { 0 };
                     let mut me = std::mem::replace(self, R::new());
                     let r = catch(|| {
-                        let line = me.deliver(i, o);
+                        let line = me.deliver(i, crc_delta, o);
                         (me, line)
                     });
                     match r {
@@ -439,6 +451,29 @@ impl World {
             }
         }
     }
+    /// changes that keep the key set and the checksum (wrapping sum of all integers): a wrong base
+    /// of the same history is then not caught by the checksum
+    fn mutate_sum_preserving(&mut self, rng: &mut Rng) {
+        let keys: Vec<(Ty, u16)> = self.items.iter().filter(|(_, d)| !d.is_empty()).map(|(k, _)| k.clone()).collect();
+        if keys.len() < 2 {
+            return;
+        }
+        for _ in 0..rng.range(1, 4) {
+            let a = rng.pick(&keys).clone();
+            let b = rng.pick(&keys).clone();
+            let k = rng.range(-9, 9) as i32;
+            {
+                let d = self.items.get_mut(&a).unwrap();
+                let i = rng.below(d.len() as u64) as usize;
+                d[i] = d[i].wrapping_add(k);
+            }
+            {
+                let d = self.items.get_mut(&b).unwrap();
+                let i = rng.below(d.len() as u64) as usize;
+                d[i] = d[i].wrapping_sub(k);
+            }
+        }
+    }
     fn spec(&self) -> String {
         if self.items.is_empty() {
             return "-".to_string();
@@ -470,8 +505,9 @@ fn gen_session(rng: &mut Rng, w: &mut dyn Write, steps: usize, style: u64, mixed
     writeln!(w, "{}", if mixed { "new mixed-uuid-sizes" } else { "new" }).unwrap();
     sim.r.mixed = mixed;
     let mut world = World { items: BTreeMap::new(), mixed };
-    let mut tick: i64 = match rng.below(5) {
+    let mut tick: i64 = match rng.below(6) {
         0 => 0,
+        5 => -rng.range(1, 8),
         1 => rng.range(1, 1000),
         2 => i32::MAX as i64 - rng.range(2, 400),
         3 => rng.range(0, i32::MAX as i64 / 2),
@@ -480,14 +516,28 @@ fn gen_session(rng: &mut Rng, w: &mut dyn Write, steps: usize, style: u64, mixed
     // per snapshot: indices of its messages; undelivered backlog for reordering
     let mut backlog: Vec<usize> = vec![];
     let mut ack_backlog: Vec<usize> = vec![];
+    let mut sent_ticks: Vec<i64> = vec![];
     let loss = [0u64, 1, 3, 6][(style % 4) as usize]; // out of 10
     let reorder = style / 4 % 2 == 1;
-    for _ in 0..steps {
+    let garble = style % 5 == 3;
+    // style "sumfix": after the first snapshot only checksum- and key-preserving changes, with
+    // frequent client resets, so that only the exact-base-tick rule stands between a stale delta
+    // and a wrong snapshot
+    let sumfix = style % 7 == 2;
+    // style "silence": the acknowledgement path goes dead after a few steps and comes back late, so
+    // that the receiver piles up more than MAX_STORED_SNAPSHOT snapshots and evicts the sender's base
+    let silence = style % 10 == 9;
+    for step in 0..steps {
+        let acks_dead = silence && step > 5 && step < steps.saturating_sub(10);
         if tick > i32::MAX as i64 {
             break;
         }
-        let big = rng.chance(1, 6);
-        world.mutate(rng, big);
+        let big = rng.chance(1, 6) && !silence;
+        if sumfix && step > 0 {
+            world.mutate_sum_preserving(rng);
+        } else {
+            world.mutate(rng, big || sumfix);
+        }
         let spec = world.spec();
         let toks = ["snap".to_string(), tick.to_string(), spec.clone()];
         let tv: Vec<&str> = toks.iter().map(|s| s.as_str()).collect();
@@ -519,6 +569,12 @@ fn gen_session(rng: &mut Rng, w: &mut dyn Write, steps: usize, style: u64, mixed
                 }
                 continue;
             }
+            if garble && rng.chance(1, 12) {
+                // a copy whose checksum field was altered arrives first
+                let dl = *rng.pick(&[1i32, -1, 256, i32::MIN]);
+                writeln!(w, "dc {} {}", i, dl).unwrap();
+                sim.r.run(&["dc", &i.to_string(), &dl.to_string()], &mut sim.o);
+            }
             writeln!(w, "d {}", i).unwrap();
             sim.r.run(&["d", &i.to_string()], &mut sim.o);
             if rng.chance(1, 10) {
@@ -539,7 +595,15 @@ fn gen_session(rng: &mut Rng, w: &mut dyn Write, steps: usize, style: u64, mixed
             sim.r.run(&["d", &i.to_string()], &mut sim.o);
         }
         // acknowledgements: emitted by the client, delivered (or not) in some order
-        if rng.chance(3, 4) {
+        sent_ticks.push(tick);
+        if sumfix && rng.chance(1, 3) {
+            // an acknowledgement for a recent snapshot that the client may never have received
+            let k = rng.below(sent_ticks.len().min(6) as u64) as usize;
+            let v = sent_ticks[sent_ticks.len() - 1 - k];
+            writeln!(w, "ra {}", v).unwrap();
+            sim.r.run(&["ra", &v.to_string()], &mut sim.o);
+        }
+        if rng.chance(if sumfix { 1 } else { 3 }, 4) && !acks_dead {
             writeln!(w, "ack").unwrap();
             sim.r.run(&["ack"], &mut sim.o);
             let j = sim.r.acks.len() - 1;
@@ -570,7 +634,7 @@ fn gen_session(rng: &mut Rng, w: &mut dyn Write, steps: usize, style: u64, mixed
             writeln!(w, "ra {}", v).unwrap();
             sim.r.run(&["ra", &v.to_string()], &mut sim.o);
         }
-        if rng.chance(1, 60) {
+        if rng.chance(1, if sumfix { 8 } else { 60 }) && !silence {
             writeln!(w, "creset").unwrap();
             sim.r.run(&["creset"], &mut sim.o);
         }
@@ -587,7 +651,7 @@ impl Domain for D {
         let mut rng = Rng::new(seed ^ 0x736d6772);
         let sessions = if thorough { 1500 } else { 120 };
         for s in 0..sessions {
-            let steps = if s % 10 == 9 { 150 } else { rng.range(5, 40) as usize };
+            let steps = if s % 10 == 9 { 170 } else { rng.range(5, 40) as usize };
             gen_session(&mut rng, w, steps, s as u64, false);
         }
         // UUID types of different sizes: reaches D25 (open finding)
